@@ -313,10 +313,11 @@ package boltz
 //@   ensures[a-missing-far-entity-changes-only-the-near-side] !entPresent(lcOS(collection), str(associatedId)) ==> lkOnly1(fieldBucket.Bucket, str(associatedId))
 
 //@ func (*mutateContext).runPreCommitActions
-//@   props C07
+//@   props C07 C16
 //@   errflow
 //@   nosafety
 //@   modifies *
+//@   callpre[a-pre-commit-action-runs-in-the-context-it-was-registered-on-not-an-upgraded-one] action@1: istype(arg0, *mutateContext) && as(arg0, *mutateContext) == self
 
 //@ func (*rcLinkCollectionImpl).DecrementLinkCount
 //@   props C07 C05
